@@ -5,8 +5,8 @@ from runner import Inv, Merged
 ID = "C14"
 MANIFEST = (
     "exploration",
-    "differential runtime monitoring: twin runs of the monitored solver on a tissue and on its translated copy (single thread, deterministic RNG through hook H2), compared node by node at the end of the run and right after the first division of the run; noise twins (inputs perturbed by 1e-13 relative and shifted by 1e-11 L) of both the reference and the translated input separate a systematic position dependence from chaotic amplification; contacts whose sign test is decided by rounding are detected through hook H6 and end the final-state comparison; metamorphic probe of the centroid the division code reads",
-    "Held on every compared pair of runs (quick: ~40 tissues x 4 translations x 20-40 iterations; thorough: thousands): single dividing cells, adhering grids, overlapping pairs of different classes, nucleus in cell, cell in ECM, lumen among cells, mixed populations with removal; translations sub-voxel, exactly one voxel, many voxels, across the origin, a few extents, up to 32 tissue extents, binary-exact; the translated run must reach the same cell count, slot-by-slot identical connectivity, positions equal to the translated reference positions and equal volumes / pressures within forward-error tolerances. Exploration is the right level: trajectories are long compositions of floating-point operations; only differential execution decides them.",
+    "differential runtime monitoring: twin runs of the monitored solver on a tissue and on its translated copy (single thread, deterministic RNG through hook H2), compared node by node at the end of the run and right after the first division of the run; noise twins (inputs perturbed by 1e-13 relative and shifted by 1e-11 L) of both the reference and the translated input separate a systematic position dependence from chaotic amplification; contacts whose sign test is decided by rounding are detected through hook H6 and end the final-state comparison; metamorphic probe of the centroid the division code reads; the translated input FILE through simulation_initializer with the initial triangulation enabled (same generator seeding, same noise-twin logic)",
+    "Held on every compared pair of runs (quick: ~40 tissues x 4 translations x 20-40 iterations; thorough: thousands): single dividing cells, adhering grids, overlapping pairs of different classes, nucleus in cell, cell in ECM, lumen among cells, mixed populations with removal; translations sub-voxel, exactly one voxel, many voxels, across the origin, a few extents, up to 32 tissue extents, binary-exact; 160 / 6000 polyhedral input files x 3-5 translations through the initial triangulation (same outcome, node slots, triangles, positions to 1e-9 L); the translated run must reach the same cell count, slot-by-slot identical connectivity, positions equal to the translated reference positions and equal volumes / pressures within forward-error tolerances. Exploration is the right level: trajectories are long compositions of floating-point operations; only differential execution decides them.",
     "Tolerances: positions 1e-8 L, volume/pressure 1e-9 relative, at every distance (|t| <= 32 tissue extents); references whose own noise twins already scatter by more than 1e-10 L are skipped as ill-conditioned (counted); the final state is not compared when a contact of the run was decided by rounding (node within 1e-7 of the plane of a face whose closest point is on its boundary: after a division the rim nodes of one daughter lie exactly in the plane of interface faces of the other) - the state right after the first division still is; a difference is a violation only if reference family and translated family are each tight and apart from each other.",
     "DESIGN.md section 3, C14",
 )
